@@ -51,6 +51,10 @@ def corruptions(e, name, order):
         for k in list(e["initial_values"].keys()):
             c = copy.deepcopy(e); d = c["initial_values"]; v = d.pop(k); d["y_other" + "'" * k.count("'")] = v; out.append(("iv_other_variable_slot_%d" % k.count("'"), c, "Malformed"))
         for k in list(e["initial_values"].keys()):
+            for other, tag in ((name + "_in", "suffix"), (name + "2", "digit"), (name[:-1] if len(name) > 1 else "q", "truncated"), ("_" + name, "underscore")):
+                c = copy.deepcopy(e); d = c["initial_values"]; v = d.pop(k); d[other + "'" * k.count("'")] = v
+                out.append(("iv_other_variable_%s_slot_%d" % (tag, k.count("'")), c, "Malformed"))
+        for k in list(e["initial_values"].keys()):
             c = copy.deepcopy(e); d = c["initial_values"]; v = d.pop(k); d[name + "'" * order] = v; out.append(("iv_order_too_high_slot_%d" % k.count("'"), c, "Malformed"))
         if order >= 2:
             for k in list(e["initial_values"].keys())[1:]:
